@@ -244,7 +244,9 @@ def fold_python_literals(idx: Index):
     res = {}
     for label, ty, lits in literal_shapes():
         it = Interp(m.tree, name=P_PYUTILS)
-        it.globals["itertools"] = ModuleRef("itertools", attrs={"count": ("host", lambda *a: _it.count(*a))})
+        from .microeval import std_modules
+        it.globals["itertools"] = ModuleRef("itertools", attrs={**std_modules(it)["itertools"].attrs,
+                                                              "count": ("host", lambda *a: _it.count(*a))})
         added = []
         self_rec = Record("TypesCodeGenerator", {"_add_literal_type": ("host", lambda t: added.append(t))},
                           {"TypesCodeGenerator": {k: v for k, v in methods.items() if k != "_add_literal_type"}})
